@@ -189,7 +189,7 @@ class State:
         s = State()
         s.store = dict(self.store)
         s.pc = list(self.pc)
-        s.stack = [Frame(f.fn, f.fid, f.bb, f.ip, f.dest, f.ret_bb) for f in self.stack]
+        s.stack = [Frame(f.fn, f.fid, f.bb, f.ip, f.dest, f.ret_bb, f.wrap) for f in self.stack]
         s.trace = list(self.trace)
         s.over = dict(self.over)
         s.aux = dict(self.aux)
@@ -197,10 +197,11 @@ class State:
 
 
 class Frame:
-    __slots__ = ("fn", "fid", "bb", "ip", "dest", "ret_bb")
+    __slots__ = ("fn", "fid", "bb", "ip", "dest", "ret_bb", "wrap")
 
-    def __init__(self, fn, fid, bb="bb0", ip=0, dest=None, ret_bb=None):
+    def __init__(self, fn, fid, bb="bb0", ip=0, dest=None, ret_bb=None, wrap=None):
         self.fn, self.fid, self.bb, self.ip, self.dest, self.ret_bb = fn, fid, bb, ip, dest, ret_bb
+        self.wrap = wrap          # applied to the value this frame returns (Option::map(f): Some(f(x)))
 
 
 class Outcome:
@@ -1017,6 +1018,8 @@ class Executor:
                 fr.bb, fr.ip = s[2]["return"], 0
             elif k == "return":
                 rv = st.store.get((fr.fid, "_0"), UNIT)
+                if fr.wrap is not None:
+                    rv = fr.wrap(rv)
                 st.stack.pop()
                 if len(st.stack) < base_depth:
                     return Outcome("return", rv, st)
@@ -1123,6 +1126,8 @@ class Executor:
                 break
         if res is NotImplemented and self.inline_closure_calls:
             res = self._closure_call(st, callee, args)
+        if res is NotImplemented and self.inline_closure_calls:
+            res = self._option_map(st, fr, callee, args, dty, dest, ret_bb, work)
         if res is NotImplemented:
             from . import summaries
             res = summaries.builtin(self, st, callee, args, dty, fr)
@@ -1145,6 +1150,15 @@ class Executor:
                 return None
             # 4 havoc
             res = self.havoc(st, callee, args, dty)
+        if isinstance(res, tuple) and res and res[0] == "inline-wrap":
+            _, fn2, args2, wrap = res
+            nf = Frame(fn2, next(self.fid_counter), dest=dest, ret_bb=ret_bb, wrap=wrap)
+            for (p, _), v in zip(fn2.params, args2):
+                st.store[(nf.fid, p)] = v
+            st.stack.append(nf)
+            if self.report is not None:
+                self.report.fn(fn2)
+            return None
         if isinstance(res, tuple) and res and res[0] in ("inline", "inline-discard"):
             # a hook redirects the call to another MIR body (e.g. log!() -> the registered logger closure, Into::into -> From::from)
             kind_, fn2, args2 = res
@@ -1188,10 +1202,23 @@ class Executor:
         return None
 
     inline_closure_calls = False
+    stateful_next = False
 
     def _closure_call(self, st, callee, args):
         """`<{closure@span} as Fn*<(A, B)>>::call*(closure, (a, b))` -> the closure's own MIR body with the argument tuple spread"""
         m = re.match(r"^<&?(?:mut )?(\{closure@[^}]*\}) as Fn(?:Mut|Once)?<.*>>::call(?:_mut|_once)?$", callee)
+        if not m and len(args) == 2 and re.match(r"^<&?(?:mut )?(impl .*?|[A-Z]\w*) as Fn(?:Mut|Once)?<.*>>::call(?:_mut|_once)?$", callee):
+            # a closure received through a generic / `impl Fn` parameter: its concrete type is carried by the value
+            from .summaries import deref_val
+            v = args[0]
+            for _ in range(4):
+                v = deref_val(self, st, v)
+                if isinstance(v, Agg) and len(v.fields) == 1 and not (v.ty or "").startswith("{closure"):
+                    v = v.fields[0]          # captured by the enclosing closure
+                else:
+                    break
+            ty = getattr(v, "ty", "") or ""
+            m = re.match(r"^&?(?:mut )?(\{closure@[^}]*\})$", ty.strip())
         if not m or len(args) != 2:
             return NotImplemented
         cands = [g for n_, l in self.funcs.items() if "{closure" in n_ for g in l if g.params and m.group(1) in g.params[0][1]]
@@ -1210,6 +1237,43 @@ class Executor:
             env = deref_val(self, st, env)
         return ("inline", g, [env] + list(tup.fields))
 
+    def _option_map(self, st, fr, callee, args, dty, dest, ret_bb, work):
+        """Option::map(opt, closure): None stays None; for Some(x) the closure's own MIR is run on x and its result wrapped in Some"""
+        m = re.match(r"^(?:std::option::|core::option::)?Option::<.*>::map::<.*(\{closure@[^}]*\})>$", callee)
+        if not m or len(args) != 2 or dest is None or ret_bb is None:
+            return NotImplemented
+        cands = [g for n_, l in self.funcs.items() if "{closure" in n_ for g in l if g.params and m.group(1) in g.params[0][1]]
+        if len(cands) != 1 or len(cands[0].blocks) > 60 or len(cands[0].params) != 2:
+            return NotImplemented
+        g = cands[0]
+        from .summaries import deref_val, opt_none, opt_some
+        opt = deref_val(self, st, args[0])
+        env = args[1]
+        if g.params[0][1].startswith("&") and not isinstance(env, (Ref, RefV)):
+            env = RefV(env)
+        wrap = lambda rv, dty=dty: opt_some(dty, rv)
+        if isinstance(opt, Agg) and opt.variant == "None":
+            return opt_none(dty)
+        if isinstance(opt, Agg) and opt.variant == "Some":
+            return ("inline-wrap", g, [env, opt.fields[0]], wrap)
+        if isinstance(opt, Lazy) and re.match(r"^(std::option::|core::option::)?Option<", opt.ty.strip()):
+            d = self.discr(st, opt)
+            none_c, some_c = d == z3.BitVecVal(0, 64), d == z3.BitVecVal(1, 64)
+            inner_ty = re.sub(r"^(std::option::|core::option::)?Option<(.*)>$", r"\2", opt.ty.strip())
+            if self.feasible(st, none_c):
+                s2 = st.fork()
+                s2.pc.append(none_c)
+                f2 = s2.stack[-1]
+                self.write_place(s2, f2, dest, opt_none(dty))
+                f2.bb, f2.ip = ret_bb, 0
+                work.append(s2)
+            if not self.feasible(st, some_c):
+                raise Infeasible()
+            st.pc.append(some_c)
+            payload = self.lazy_child(st, opt, ("vfield", "Some", 0), inner_ty, ".Some.0")
+            return ("inline-wrap", g, [env, payload], wrap)
+        return NotImplemented
+
     def havoc(self, st, callee, args, dty):
         from . import summaries
         name = summaries.canon(callee)
@@ -1217,7 +1281,9 @@ class Executor:
             self.report.havoc.add(name)
         mutable = any(isinstance(a, Ref) and a.mut for a in args)
         key = None
-        if self.pure_havoc and args:          # a call without arguments is an allocation or an environment read, not a function of the inputs
+        # an iterator advances: two calls, two results (opt-in: kernels written against the memoised behaviour model their iterators themselves)
+        stateful = self.stateful_next and name.split("::")[-1] in ("next", "next_back") and bool(args) and isinstance(args[0], Ref)
+        if self.pure_havoc and args and not stateful:          # a call without arguments is an allocation or an environment read, not a function of the inputs
             try:
                 key = (name, dty, tuple(vkey(a) for a in args))
             except Exception:
